@@ -132,6 +132,14 @@ def synthetic(ctx):
         exp.to_identifier("Mixed Case", quoted=True), exp.to_table("c.d.t"),
         exp.JSONExtract(this=exp.column("j"), expression=exp.Literal.string("$.a")),
     ]
+    # every member of the type enumeration, as a bare type and as the type annotation of a node
+    for member in exp.DType:
+        nodes.append(exp.DataType(this=member))
+        typed = exp.column("c")
+        typed.type = exp.DataType(this=member)
+        nodes.append(typed)
+    nodes.append(exp.DataType.build("my_schema.my_type", udt=True))
+    nodes.append(exp.Cast(this=exp.column("x"), to=exp.DataType.build("my_enum", udt=True)))
     for n in nodes:
         n.add_comments(["c1", "c 2"]) if len(nodes) % 2 else None
         n.meta["k"] = [1, "two", {"three": None}]
@@ -155,7 +163,7 @@ def worker(ctx):
             break
         rng = ctx.case_rng(i)
         tables = sqlgen.gen_schema(rng)
-        s, kind = stmts.gen_statement(rng, tables)
+        s, kind = stmts.gen_statement(rng, tables, wide_types=True)
         s, _ = add_comments(rng, s, rng.randint(0, 3))
         schema = sqlgen.sqlglot_schema(tables)
         ds = rng.sample(dialects, 6)
